@@ -212,9 +212,14 @@ impl<CS: BbsCiphersuite> Signature<BBSplus<CS>> {
         update_index: usize,
         n: usize,
     ) -> Result<Self, Error> {
-        let generators = Generators::create::<CS>(n + 1, Some(CS::API_ID));
+        let generators = Generators::create::<CS>(
+            n.checked_add(1)
+                .ok_or_else(|| Error::UpdateSignatureError("n too large".to_owned()))?,
+            Some(CS::API_ID),
+        );
 
-        if generators.values.len() <= update_index + 1 {
+        // generators = (Q1, H_0, ..., H_{n-1}): the index must address one of the n message generators
+        if generators.values.len() - 1 <= update_index {
             return Err(Error::UpdateSignatureError(
                 "len(generators) <= update_index".to_owned(),
             ));
